@@ -30,6 +30,22 @@ ASSUMPTIONS = [
 N = {"quick": 1200, "thorough": 60000}
 
 
+def route_shapes(src, values):
+    """Decidable input shapes of the recorded defects of the MSL pipeline-constant route: which overrides are NOT supplied
+    (their default initialiser is used) and what that initialiser looks like."""
+    supplied = set(kv.split("=")[0] for kv in values.split(",") if "=" in kv)
+    shapes = set()
+    for m in re.finditer(r"(?:@id\((\d+)\) )?override (\w+): (\w+)(?: = ([^;]*))?;", src):
+        oid, name, ty, init = m.groups()
+        if name in supplied or (oid is not None and oid in supplied) or init is None:
+            continue
+        if ty in ("i32", "u32"):
+            shapes.add("unsupplied-integer-default")
+        if not re.search(r"ov\d", init) and re.search(r"[-+*/(]", init):
+            shapes.add("unsupplied-literal-expression-default")
+    return shapes
+
+
 def unq(s):
     return s.replace("\\n", "\n").replace('\\"', '"').replace("\\\\", "\\")
 
@@ -159,11 +175,12 @@ def run(ck):
             elif "-error[" in r:
                 cls = re.sub(r"[0-9]+", "N", r[r.index("-error[") + 7:])[:100]
             fid = None
+            shapes = route_shapes(unq(s[1:-1]), " ".join(t.split(" ")[3:]))
             for kf in ck.known:
                 mt = kf.get("match", {})
                 if mt.get("kind") == "pipeline-constant-route-differs" and mt.get("route") == route and re.search(mt.get("class_regex", ".*"), cls) \
-                        and re.search(mt.get("source_regex", ""), unq(s[1:-1])):
-                    fid = kf["id"]
+                        and mt.get("shape") in shapes:
+                    fid = fid or kf["id"]
             key = ("route", route, cls)
             if fid is None and key in reported:
                 continue
